@@ -35,8 +35,11 @@ What is abstracted
   nothing leaves it `fresh` (`BTreeIterState::exit` empties the stack).
   The backend content is a function of the record id (`beOf : Nat → List (Key × V)`):
   the tree seen through the log overlay changes only when a record writes the column, and
-  that changes `last_record_id(col)`.  This abstraction is tied to the code by the
-  correspondence runs (harness/src/c04.rs), not by proof.
+  that changes `last_record_id(col)`.  The abstract cursor is proved to be refined by the
+  node-stack cursor (Props/C04b.lean), and the pipeline that produces the environments
+  (overlay, record id, tree) is Pdb/Model/BTreePipe.lean with the composition theorems of
+  Props/C04c.lean; the record-id rule itself ("a record that writes a value table of the column
+  moves `last_record_id`") is tied to the code by the correspondence runs (harness/src/c04.rs).
 * The commit overlay is a sorted association list `List (Key × Option V)`
   (`some v` = set, `none` = removed), no duplicate keys (it is a `BTreeMap`).
 
